@@ -58,9 +58,17 @@ func init() {
 var goBin string
 
 func findGo() string {
+	// go1.26.8 first: go1.25.0 allocates the runtime record that ties a sync.WaitGroup to
+	// its synctest bubble without holding the heap's special lock (fixed later), and two
+	// tasks that really run at the same time (one entering a blocking operation, the other
+	// holding the token) can corrupt the list of those records; the process then spins
+	// forever inside the runtime with preemption disabled (seen as stalled workers)
 	cands := []string{
-		"/root/go/pkg/mod/golang.org/toolchain@v0.0.1-go1.25.0.linux-amd64/bin/go",
 		"/opt/veriftools/go1.26.8/bin/go",
+		"/root/go/pkg/mod/golang.org/toolchain@v0.0.1-go1.25.0.linux-amd64/bin/go",
+	}
+	if v := os.Getenv("VCHECK_GO"); v != "" {
+		cands = append([]string{v}, cands...)
 	}
 	for _, c := range cands {
 		if _, err := os.Stat(c); err == nil {
